@@ -112,6 +112,56 @@ class Program:
                                 p["adt"].split("::")[-1] + "." + p["n"] for p in flds
                             )
 
+    def _discover_converting_accessors(self):
+        """Generated accessors that convert between a stored representation and the API type (prost keeps
+        enums as i32: `get_msg_type` = MessageType::from_i32(self.msg_type).unwrap(); `set_msg_type`
+        stores the discriminant). Recognised when the function is named after the field it is the sole
+        reader/writer of, and its result/stored value derives from that field/parameter through unary
+        conversions only."""
+        from .pg import PG
+
+        def leaf(v):
+            for _ in range(8):
+                if v[0] in ("field", "param"):
+                    return v
+                if v[0] in ("vfield", "cast", "tfield", "discr") and isinstance(v[1], tuple):
+                    v = v[1]
+                elif v[0] == "call" and len(v[2]) == 1:
+                    v = v[2][0]
+                else:
+                    return None
+            return None
+        for k, f in self.facts.fns.items():
+            sk = strip_generics(k)
+            if f.is_closure or not f.impl_adt or sk in self.getters or sk in self.setters or f.impl_trait:
+                continue
+            ad = self.facts.adt(f.impl_adt)
+            if not ad or ad["kind"] != "struct":
+                continue
+            names = {x["name"] for x in ad["variants"][0]["fields"]}
+            n = f.name
+            short = f.impl_adt.split("::")[-1]
+            if f.body.arg_count == 1 and (n in names or (n.startswith("get_") and n[4:] in names)):
+                fld = n if n in names else n[4:]
+                if self.direct_mod.get(k):
+                    continue
+                try:
+                    rets = PG(self, f).returns(limit=300)
+                except OverflowError:
+                    continue
+                key = short + "." + fld
+                if rets and all((lambda x: x is not None and x[0] == "field" and x[2] == key and x[1][0] == "param" and x[1][1] == 1)(leaf(v)) for _, v, _ in rets):
+                    self.getters[sk] = (key,)
+            elif f.body.arg_count == 2 and n.startswith("set_") and n[4:] in names:
+                key = short + "." + n[4:]
+                ws = self.direct_writes(k)
+                if len(ws) == 1 and ws[0][1] == key and "stmt" in ws[0][0].data:
+                    s0 = ws[0][0]
+                    v = self.an[k].expr_rvalue(s0.data["stmt"]["rv"], s0.at)
+                    lf = leaf(v)
+                    if lf is not None and lf[0] == "param" and lf[1] == 2:
+                        self.setters[sk] = (key,)
+
     def simplify_call(self, e, fr=None):
         path = e[1]
         args = e[2]
@@ -272,6 +322,7 @@ class Program:
                 if len(m) != n0:
                     changed = True
         self.mod = mod
+        self._discover_converting_accessors()
         self._compute_readsets()
         self._compute_rooted()
 
